@@ -3,7 +3,7 @@
   One input line = one operation; one output line per operation.
 -/
 import MicroHttp.Show
-import MicroHttp.Server
+import MicroHttp.SrvProto
 import MicroHttp.Spec.RespReader
 open MicroHttp
 
@@ -99,6 +99,7 @@ def handlerResp (h : Nat) : Response :=
 def stepLine (st : DState) (line : String) : DState × String :=
   match line.trimAscii.toString.splitOn " " with
   | "case" :: rest => (st, "case " ++ " ".intercalate rest)
+  | "#" :: _ => (st, "#")
   | ["method", h] =>
     match unhex h with
     | some bs => (st, match Method.tryFrom bs with | some m => "some " ++ m.show | none => "none")
